@@ -150,9 +150,9 @@ def check_message_received(ctx):
                f"the {'host' if is_host else 'equipment'} side answers S1F13 with `{body[:120]}`: E30 prescribes {want} (the peer refuses or misreads the reply)", key=f"s1f14-body {'host' if is_host else 'equipment'}", where=f.where)
     # COMMACK of the received S1F14
     tainted14 = rules.taint(fn, lambda x: isinstance(x, ast.Attribute) and x.attr == "COMMACK")
-    ok = _guarded_by_zero(cfg, t14[0], lambda e: rules.expr_depends_on(e, tainted14, lambda x: isinstance(x, ast.Attribute) and x.attr == "COMMACK"))
+    ok = _guarded_by_zero(cfg, t14[0], lambda e: rules.expr_depends_on(e, tainted14, lambda x: isinstance(x, ast.Attribute) and x.attr == "COMMACK"), truthiness=False)
     ctx.ob("C07.P2", q, ok, "COMMUNICATING is entered on S1F14 only if its COMMACK is 0" if ok else
-           "s1f14received() is not guarded by `COMMACK == 0` of the received S1F14: a refused establish-communications request (COMMACK 1) is reported as established", key="commack-received", where=f.where)
+           "s1f14received() is not guarded by `COMMACK == 0` of the received S1F14: a refused establish-communications request (COMMACK 1), or one whose COMMACK item is empty (falsy, but not 0), is reported as established", key="commack-received", where=f.where)
     if ok:
         # the COMMACK examined is decoded from *this* message
         dec = [c for c in calls_in(fn) if (call_name(c) or "").endswith("streams_functions.decode")]
@@ -192,14 +192,16 @@ def check_message_received(ctx):
     ctx.ob("C07.P2", q, not others, "no other transition is requested from the receive path" if not others else f"additional transitions on the receive path: {[o.text() for o in others]}", key="no-other-transition", where=f.where)
 
 
-def _guarded_by_zero(cfg, node, depends) -> bool:
+def _guarded_by_zero(cfg, node, depends, truthiness=True) -> bool:
+    """truthiness=False: only a comparison with 0 counts.  For a value decoded from a received item `not x` is not
+    `x == 0`: an item of length zero reads as an empty list, which is falsy."""
     for p, v in cfg.dominating_conditions(node, derive=True):
         if isinstance(p, ast.Compare) and len(p.ops) == 1 and isinstance(p.comparators[0], ast.Constant) and p.comparators[0].value == 0 and depends(p.left):
             if isinstance(p.ops[0], ast.Eq) and v:
                 return True
             if isinstance(p.ops[0], ast.NotEq) and not v:
                 return True
-        if not isinstance(p, (ast.Compare, ast.BoolOp, ast.UnaryOp)) and depends(p) and not v:
+        if truthiness and not isinstance(p, (ast.Compare, ast.BoolOp, ast.UnaryOp)) and depends(p) and not v:
             return True  # `if not commack:` - the value is falsy, i.e. 0
     return False
 
